@@ -176,6 +176,25 @@ DistanceImpl(T, i, j, thr) ==
          Cardinality(one),
          constant + Cardinality(both) + Cardinality(one) >>
 
+\* `ska distance --allow-ambiguous` on tables WITH ambiguity codes (C15: the weights in use).  Each code
+\* stands for the uniform distribution over its set (N: no weight at all); a row in which both samples have a
+\* symbol contributes the probability that the two differ, 1 - sum_x w_a(x) w_b(x), in units of 1/36.  As the
+\* code computes it: rows in which every sample shows the same symbol are set aside as constant before the
+\* pairwise comparison and contribute nothing (so d(R,R) is 1/2 in a row R,R,T but 0 in a row R,R,R).
+Dot6(a, b) == LET wa == Weights6(a) wb == Weights6(b) IN wa[1] * wb[1] + wa[2] * wb[2] + wa[3] * wb[3] + wa[4] * wb[4]
+DistAmb(T, i, j, thr) ==
+   LET above == {r \in T.rows : RowCount(r[2], FALSE) >= thr}
+       nonconst == {r \in above : Cardinality(Symbols(r[2])) >= 2}
+       constant == Cardinality(above) - Cardinality(nonconst)
+       both == {r \in nonconst : r[2][i] # Gap /\ r[2][j] # Gap}
+       one == {r \in nonconst : (r[2][i] = Gap) # (r[2][j] = Gap)}
+   IN << FoldSet(LAMBDA r, acc : acc + 36 - Dot6(r[2][i], r[2][j]), 0, both),
+         Cardinality(one),
+         constant + Cardinality(both) + Cardinality(one) >>
+\* printed distance D100 (two decimals, scaled by 100) is dist36/36 rounded: |D100/100 - dist36/36| <= 0.005 (+ slack of
+\* one unit of 1/3600 for the binary representation)
+Dist36OK(D100, dist36) == (IF 36 * D100 >= 100 * dist36 THEN 36 * D100 - 100 * dist36 ELSE 100 * dist36 - 36 * D100) <= 19
+
 \* printed mismatch proportion P (scaled 1e5) is num/den to 5 decimals
 PropOK(P, num, den) == IF den = 0 THEN P = 0
                        ELSE (IF P * den >= num * 100000 THEN P * den - num * 100000 ELSE num * 100000 - P * den) <= den
